@@ -434,10 +434,19 @@ func (rc *RunCtx) runJob(j Job) (res *JobResult) {
 		delete(e.Redirects, qHashBetween)
 		e.InjectiveUF = ""
 	}
+	if f := pkg.Func("verifSyncPoolGet"); f != nil {
+		e.Redirects["(*sync.Pool).Get"] = f
+		e.Redirects["(*sync.Pool).Put"] = pkg.Func("verifSyncPoolPut")
+	}
 	if j.Yield {
 		e.Redirects["(*sync.Mutex).Unlock"] = pkg.Func("verifYieldMutex")
 		e.Redirects["(*sync.RWMutex).Unlock"] = pkg.Func("verifYieldRW")
 		e.Redirects["(*sync.RWMutex).RUnlock"] = pkg.Func("verifYieldRRW")
+		e.Redirects["(*sync.Mutex).Lock"] = pkg.Func("verifLockMutex")
+		e.Redirects["(*sync.RWMutex).Lock"] = pkg.Func("verifLockRW")
+		e.Redirects["(*sync.RWMutex).RLock"] = pkg.Func("verifRLockRW")
+		e.Redirects["(*os.File).Seek"] = pkg.Func("verifFileSeek")
+		e.Redirects["(*os.File).Read"] = pkg.Func("verifFileRead")
 		if pkg.Func("verifPoolGetFresh") != nil {
 			// the pool is not a critical section: it never hands one object to two holders
 			e.RedirectPkg = pkg
